@@ -98,7 +98,7 @@ func runCase(phase string, i int) worker.Result {
 		o.Manifests = 1 + n/8
 	}
 	o.Indexes = 1 + n/8
-	o.DupMediaType = false
+	o.DupMediaType = rng.IntN(3) == 0 // same bytes under two media types: the destination (memory) keys by media type
 	o.AbsentSubjects = false
 	var f filterSpec
 	depth := []int{0, 0, 0, 1, 2, 3}[rng.IntN(6)]
